@@ -33,16 +33,18 @@ def distinct_classes(progs):
     return len(seen)
 
 
-def api_cfgs(run, depth):
+def api_cfgs(run, depth, start="new", pres=("none",)):
+    """MC_API configurations: one TLC process per packet type (x slice x read-only operation before the history)."""
     cfgs = []
     slices = 4 if depth >= 3 else 1
     for t in ALL_TYPES:
-        for sl in range(slices):
-            cfgs.append(("api-%d-%d" % (t, sl),
-                         "SPECIFICATION Spec\nINVARIANT FlagsInStep\nINVARIANT LastWriteWins\nINVARIANT Emit\n"
-                         "PROPERTY FrameCondition\nCHECK_DEADLOCK FALSE\n"
-                         "CONSTANTS T = %d DEPTH = %d SLICE = %d SLICES = %d WRITES = %s\n"
-                         % (t, depth, sl, slices, "TRUE" if depth >= 3 else "FALSE")))
+        for pre in pres:
+            for sl in range(slices):
+                cfgs.append(("api-%s-%s-%d-%d" % (start, pre, t, sl),
+                             "SPECIFICATION Spec\nINVARIANT FlagsInStep\nINVARIANT LastWriteWins\nINVARIANT Emit\n"
+                             "PROPERTY FrameCondition\nCHECK_DEADLOCK FALSE\n"
+                             "CONSTANTS T = %d DEPTH = %d SLICE = %d SLICES = %d WRITES = %s START = \"%s\" PRE = \"%s\"\n"
+                             % (t, depth, sl, slices, "TRUE" if depth >= 3 else "FALSE", start, pre)))
     return cfgs
 
 
@@ -53,6 +55,10 @@ def gather(run, fams):
     for fam, arg in fams:
         if fam == "api":
             jobs.append(lambda arg=arg: run.model_programs("MC_API", api_cfgs(run, arg), "api"))
+        elif fam == "apifull":      # histories that start on a packet carrying every field, after a WriteTo / String
+            jobs.append(lambda arg=arg: run.model_programs("MC_API", api_cfgs(run, arg, "full", ("write", "diag")), "apifull"))
+        elif fam == "apidec":       # histories on the packet ReadPacket returned for the frame of that full packet
+            jobs.append(lambda arg=arg: run.model_programs("MC_API", api_cfgs(run, arg, "decoded", ("none", "write")), "apidec"))
         else:
             jobs.append(lambda fam=fam, arg=arg: run.generate(fam, arg))
     if len(jobs) == 1:
@@ -66,6 +72,11 @@ def gather(run, fams):
 
 MC_STREAM_CFG = ("SPECIFICATION Spec\nINVARIANT Safety\nINVARIANT PacketOnlyIfComplete\nINVARIANT FaultReported\n"
                  "INVARIANT NoGivingUp\nINVARIANT NotStuck\nPROPERTY Termination\nCHECK_DEADLOCK FALSE\nCONSTANTS MaxZeros = 2\n")
+
+
+MC_WRITE_CFG = ("SPECIFICATION Spec\nINVARIANT OfferedIsPrefix\nINVARIANT AcceptedWithinOffered\nINVARIANT NoWriteAfterError\n"
+                "INVARIANT TruthfulCount\nINVARIANT UndefinedWritesNothing\nINVARIANT OutcomeMatches\nINVARIANT NotStuck\n"
+                "PROPERTY Termination\nCHECK_DEADLOCK FALSE\n")
 
 
 def model_theorems(run, models):
@@ -228,14 +239,17 @@ BUILD_RULE = ("one program per abstract packet of spec/Gen.tla built through con
 
 
 def c01(run):
-    return check(run, "C01", {"C01"}, [("build", TYPE_PARTS), ("reuse", ONE_PART)],
+    return check(run, "C01", {"C01"}, [("build", TYPE_PARTS), ("reuse", ONE_PART), ("api", 2), ("apifull", 2 if run.tier == "thorough" else 1)],
                  BUILD_RULE + "TLC replays the setters on the PacketAPI model and requires every accessor of the decoded packet "
-                 "to equal the model and the second encoding to equal the first",
+                 "to equal the model and the second encoding to equal the first; the same round trip at the end of every setter history "
+                 "of MC_API (all ordered pairs of calls from the constructor's packet; every call, thorough every pair, from a packet "
+                 "that carries every field and was written or printed before)",
                  ["D1: domain of C01 as InC01Domain in spec/PacketAPI.tla"])
 
 
 def c02(run):
-    return check(run, "C02", {"C02"}, [("build", TYPE_PARTS), ("reuse", ONE_PART), ("own", ONE_PART)], histories=300 if run.tier == "quick" else 5000, rule=
+    return check(run, "C02", {"C02"}, [("build", TYPE_PARTS), ("reuse", ONE_PART), ("own", ONE_PART), ("apifull", 2 if run.tier == "thorough" else 1)],
+                 histories=300 if run.tier == "quick" else 5000, rule=
                  BUILD_RULE + "the bytes handed to the writer are read by the strict reference decoder (MQTTWire!StrictDecode) "
                  "and ObsOfWire of the result must equal the PacketAPI model state; also caller-kept values (reuse family), packets "
                  "next to decodes (own family) and seeded random histories with writes between the calls",
@@ -243,7 +257,7 @@ def c02(run):
 
 
 def c03(run):
-    return check(run, "C03", {"C03"}, [("frames", TYPE_PARTS)],
+    return check(run, "C03", {"C03"}, [("frames", TYPE_PARTS)] + ([("huge", ONE_PART)] if run.tier == "thorough" else []),
                  "one program per abstract wire packet enumerated by TLC (family frames): 15 types x property subsets/orders/"
                  "explicit zeros x short forms x boundary string lengths; each frame is produced by the reference encoder, read by "
                  "ReadPacket, and the accessor values are compared by TLC with ObsOfWire(StrictDecode(frame))",
@@ -326,17 +340,20 @@ def c09(run):
 
 
 def c10(run):
-    return check(run, "C10", {"C10"}, [("wfault", TYPE_PARTS), ("build", TYPE_PARTS), ("reuse", ONE_PART)],
+    return check(run, "C10", {"C10"}, [("wfault", TYPE_PARTS), ("build", TYPE_PARTS), ("reuse", ONE_PART), ("apifull", 2 if run.tier == "thorough" else 1),
+                                       ("apidec", 2 if run.tier == "thorough" else 1)],
                  "packets of the build family written to a writer that accepts everything, and small packets written to a "
                  "writer that accepts exactly k bytes then reports E for every k below the frame length; malformed but "
                  "constructible packets and Undefined; seeded random setter histories with WriteTo between the calls (a packet that grows "
-                 "and shrinks between two writes)",
+                 "and shrinks between two writes); MC_Write model-checks the writer rules (WriteIO.tla: every way of offering a frame in one "
+                 "or several Write calls x every writer that stops after K bytes; completed behaviours satisfy the predicate applied to "
+                 "the recorded events)",
                  ["D7: writers obey io.Writer (an error whenever fewer bytes are accepted)"],
-                 histories=400 if run.tier == "quick" else 5000)
+                 histories=400 if run.tier == "quick" else 5000, models=[("MC_Write", MC_WRITE_CFG)])
 
 
 def c11(run):
-    return check(run, "C11", {"C11"}, [("build", TYPE_PARTS), ("own", ONE_PART)],
+    return check(run, "C11", {"C11"}, [("build", TYPE_PARTS), ("own", ONE_PART), ("apifull", 2 if run.tier == "thorough" else 1), ("apidec", 2 if run.tier == "thorough" else 1)],
                  BUILD_RULE + "every WriteTo of an unchanged model state must give the bytes of the first one (8 repeats in a "
                  "row plus writes before and after String/Dump/WellFormed), and the accessor record must be unchanged by "
                  "every read-only operation; a third of the programs is executed again in two other worker processes (fresh hash seeds) "
@@ -345,7 +362,7 @@ def c11(run):
 
 def c12(run):
     depth = 3 if run.tier == "thorough" else 2
-    return check(run, "C12", {"C12"}, [("api", depth), ("reuse", ONE_PART)],
+    return check(run, "C12", {"C12"}, [("api", depth), ("apifull", depth - 1), ("apidec", depth - 1), ("reuse", ONE_PART)],
                  "TLC explores PacketAPI (spec/MC_API.tla) per packet type: all histories of %d calls over the complete setter "
                  "alphabet with zero/non-zero/maximal arguments and both truth values; invariants FlagsInStep, LastWriteWins, "
                  "FrameCondition hold in the model; every history is executed and after every call all accessors must equal "
